@@ -83,7 +83,9 @@ def configs(tier):
     # the second configuration biases towards unpacking a directory offer
     # where something already exists (existing --output-file directory, names
     # resolving to existing directories, colliding zip members)
-    return [{}, {"bias": "over_existing"}]
+    # the third: an unrelated '<destination>.tmp' exists and the transit
+    # connection dies mid-transfer
+    return [{}, {"bias": "over_existing"}, {"bias": "tmp_cut"}]
 
 
 def build_zip(tape):
@@ -262,7 +264,8 @@ def _run2(seed, tape, opts, w):
     dest_tmp = dest + ".tmp"
     if under_cwd and not os.path.lexists(dest_tmp) and \
             os.path.isdir(os.path.dirname(dest_tmp)) and \
-            tape.choose(5, "tmp1") == 0:
+            (tape.choose(5, "tmp1") == 0 or
+             opts.get("bias") == "tmp_cut"):
         # an unrelated file that happens to be called <destination>.tmp
         put(os.path.relpath(dest_tmp, base), b"unrelated tmp")
     tmp_preexisted = os.path.lexists(dest_tmp)
@@ -308,6 +311,8 @@ def _run2(seed, tape, opts, w):
     env = tape.pick(("none", "none", "none", "mkdir", "file", "cut", "cut"),
                     "env") if not dest_preexisted else \
         tape.pick(("none", "cut"), "env2")
+    if opts.get("bias") == "tmp_cut" and tape.choose(4, "env_f"):
+        env = "cut"
     env_paths = set()
     env_state = {"left": None}
 
